@@ -880,3 +880,10 @@ _register_w = register
 def register(R):  # noqa: F811
     _register_w(R)
     register_build(R)
+
+
+def regex_facts():
+    """regex-language facts of this property (contracts/regex_facts.py): obligations C01/regex/<label>"""
+    from contracts import regex_facts as RF
+
+    return RF.facts("C01")
